@@ -17,7 +17,7 @@ EXTRACT = os.path.join(VERIF, "tools", "vx-extract", "target", "release", "vx-ex
 BUILD = os.path.join(VERIF, "build")
 
 SECTION_RE = re.compile(
-    r'^(ret|requires|ensures|decreases|returns|prefix|suffix|loop\s+\d+|before\s+".*"|after\s+".*"|replace\s+".*")\s*:\s*(.*)$'
+    r'^(ret|requires|ensures|decreases|returns|prefix|suffix|loop\s+\d+|before\s+".*"(?:@\d+/\d+)?|after\s+".*"(?:@\d+/\d+)?|replace\s+".*")\s*:\s*(.*)$'
 )
 TAG_RE = re.compile(r"\[([A-Z]\d\d(?:\.\w+)?(?:\s+[A-Z]\d\d(?:\.\w+)?)*)\]")
 
@@ -27,11 +27,31 @@ class UnitError(Exception):
 
 
 def _strip_trailing(text):
-    t = text.rstrip()
-    # drop trailing comment-only lines is not attempted; just strip whitespace and commas
-    while t.endswith(","):
-        t = t[:-1].rstrip()
-    return t
+    """Remove the trailing comma of a clause list, also when it is followed by a // comment."""
+    lines = text.rstrip().split("\n")
+    for i in range(len(lines) - 1, -1, -1):
+        ln = lines[i]
+        code, sep, com = ln.partition("//")
+        if not code.strip():
+            continue
+        c = code.rstrip()
+        while c.endswith(","):
+            c = c[:-1].rstrip()
+        lines[i] = c + ((" " + sep + com) if sep else "")
+        break
+    return "\n".join(lines)
+
+
+def _with_comma(text):
+    """clause list text with exactly one trailing comma (placed before a trailing comment)."""
+    lines = _strip_trailing(text).split("\n")
+    for i in range(len(lines) - 1, -1, -1):
+        code, sep, com = lines[i].partition("//")
+        if not code.strip():
+            continue
+        lines[i] = code.rstrip() + "," + ((" " + sep + com) if sep else "")
+        break
+    return "\n".join(lines)
 
 
 def parse_vspec(path):
@@ -55,8 +75,12 @@ def parse_vspec(path):
         elif sec.startswith("loop"):
             c.setdefault("loops", {})[str(int(sec.split()[1]))] = text
         else:
-            m = re.match(r'^(before|after|replace)\s+"(.*)"$', sec)
-            c.setdefault("inserts", []).append({"pos": m.group(1), "anchor": m.group(2), "text": text})
+            m = re.match(r'^(before|after|replace)\s+"(.*)"(?:@(\d+)/(\d+))?$', sec)
+            ins = {"pos": m.group(1), "anchor": m.group(2), "text": text}
+            if m.group(3) is not None:
+                ins["occurrence"] = int(m.group(3))
+                ins["of"] = int(m.group(4))
+            c.setdefault("inserts", []).append(ins)
         buf = []
 
     with open(path) as f:
@@ -94,16 +118,16 @@ def contract_to_request(c, mutate_false=False):
     req = {}
     parts = []
     if c.get("requires", "").strip():
-        parts.append("    requires\n" + _strip_trailing(c["requires"]) + ",")
+        parts.append("    requires\n" + _with_comma(c["requires"]))
     ens = c.get("ensures", "")
     if mutate_false:
-        ens = (_strip_trailing(ens) + ",\n        false") if ens.strip() else "        false"
+        ens = (_with_comma(ens) + "\n        false") if ens.strip() else "        false"
     if ens.strip():
-        parts.append("    ensures\n" + _strip_trailing(ens) + ",")
+        parts.append("    ensures\n" + _with_comma(ens))
     if c.get("returns", "").strip():
-        parts.append("    returns\n" + _strip_trailing(c["returns"]) + ",")
+        parts.append("    returns\n" + _with_comma(c["returns"]))
     if c.get("decreases", "").strip():
-        parts.append("    decreases\n" + _strip_trailing(c["decreases"]) + ",")
+        parts.append("    decreases\n" + _with_comma(c["decreases"]))
     if parts:
         req["spec"] = "\n".join(parts)
     if c.get("ret"):
@@ -209,8 +233,15 @@ def build(unit, model, repo=None, mutate_false=None, tag=""):
                 raise UnitError(f"duplicate contract {k}")
             contracts[k] = v
     req_contracts = {}
+    trait_impl_fns = set(cfg.get("trait_impl_fns", []))
     for k, c in contracts.items():
-        req_contracts[k] = contract_to_request(c, mutate_false == k)
+        if mutate_false == k and k in trait_impl_fns:
+            # Verus rejects `ensures` on trait-impl methods: the vacuity mutant asserts false at entry
+            c = dict(c)
+            c["prefix"] = "proof { assert(false); }\n" + c.get("prefix", "")
+            req_contracts[k] = contract_to_request(c, False)
+        else:
+            req_contracts[k] = contract_to_request(c, mutate_false == k)
     rules = dict(cfg.get("rules", {}))
     rules.update(mcfg.get("rules", {}))
     sources = json.loads(json.dumps(cfg["sources"]))
@@ -281,6 +312,7 @@ def build(unit, model, repo=None, mutate_false=None, tag=""):
                 "sha256": hashlib.sha256(fn["orig"].encode()).hexdigest(),
                 "tags": c.get("tags", []),
                 "has_contract": fn["has_contract"],
+                "in_trait_impl": fn.get("in_trait_impl", False),
                 "n_requires": count_clauses(c.get("requires", "")),
                 "n_ensures": count_clauses(c.get("ensures", "")),
                 "n_loop_contracts": len(c.get("loops", {})),
@@ -469,7 +501,9 @@ def attribute(g, r):
         # the owner is determined by any span that falls into a function
         own = None
         gen_line = None
-        for (ls, le, prim, label) in spans:
+        # the primary span decides (call site for preconditions, clause for postconditions);
+        # fall back to any span that lies inside an extracted function or lemma
+        for (ls, le, prim, label) in sorted(spans, key=lambda x: not x[2]):
             o = owner(ls)
             if o[0] != "prelude":
                 own = o
